@@ -733,6 +733,40 @@ func c18Footprint(oi, k int) footprint {
 // goroutine does; if another op (or a second instance of the same op) changes the same variable, the
 // two writes are a definite data race whenever the ops run in parallel. A library that keeps no
 // mutable state outside the objects passed in has empty footprints.
+// C18FirstUseMain runs op oi as the very first use of the library in this process and prints its state
+// footprint as JSON (lazy initialisation shows only here: any earlier use would have filled the tables).
+func C18FirstUseMain(oi int) int {
+	fp := c18Footprint(oi, 0)
+	b, _ := json.Marshal(map[string]interface{}{"changed": fp.changed, "syncs": fp.syncs})
+	fmt.Println("FIRSTUSE " + string(b))
+	return 0
+}
+
+func c18FirstUse(oi int) (footprint, bool) {
+	exe, err := os.Executable()
+	if err != nil {
+		return footprint{}, false
+	}
+	cmd := exec.Command(exe, "c18first", fmt.Sprint(oi))
+	cmd.Env = append(os.Environ(), "GOMAXPROCS=1")
+	out, err := cmd.Output()
+	if err != nil {
+		return footprint{}, false
+	}
+	for _, l := range strings.Split(string(out), "\n") {
+		if strings.HasPrefix(l, "FIRSTUSE ") {
+			var r struct {
+				Changed []string `json:"changed"`
+				Syncs   int      `json:"syncs"`
+			}
+			if json.Unmarshal([]byte(l[9:]), &r) == nil {
+				return footprint{changed: r.Changed, syncs: r.Syncs}, true
+			}
+		}
+	}
+	return footprint{}, false
+}
+
 func c18Footprints(c *engine.Ctx, opIdx []int) {
 	if !engine.InstrumentedBuild() {
 		c.Note("state footprints not measured in a plain build")
@@ -742,6 +776,17 @@ func c18Footprints(c *engine.Ctx, opIdx []int) {
 	fps := map[int]footprint{}
 	for _, oi := range opIdx {
 		a, b := c18Footprint(oi, 0), c18Footprint(oi, 1)
+		// first use in a fresh process (lazy initialisation of package-level state)
+		if fu, ok := c18FirstUse(oi); ok {
+			c.Count("first_use_footprints_measured", 1)
+			a.changed = append(a.changed, fu.changed...)
+			if len(fu.changed) > 0 && fu.syncs < a.syncs {
+				a.syncs = fu.syncs
+			}
+			if len(fu.changed) > 0 && fu.syncs == 0 {
+				a.syncs = 0
+			}
+		}
 		fp := footprint{syncs: a.syncs}
 		seen := map[string]bool{}
 		for _, v := range append(a.changed, b.changed...) {
